@@ -28,7 +28,7 @@ impl MState {
 }
 
 pub fn short(s: &str) -> String {
-    if s.len() <= 24 { s.to_string() } else { format!("{}..({}B)", &s[..16], s.len()) }
+    if s.len() <= 24 { s.to_string() } else { format!("{}..({}B)", s.chars().take(16).collect::<String>(), s.len()) }
 }
 
 /// One journalled single-record write.
